@@ -138,6 +138,12 @@ func runOnce(sc *Scenario, o vsched.Options) (*vsched.Exec, Result) {
 		return e, r
 	}
 	if final == nil {
+		if e.Deadlock != "" && !sc.AllowDeadlock {
+			// thread 0 (set-up code calling the API) is itself stuck on a lock: a deadlock in the code under test
+			r.Violate("deadlock:"+stripIDs(e.Deadlock), "deadlock during the scenario's set-up: %s", e.Deadlock)
+			r.Violations = append(r.Violations, raceViolations()...)
+			return e, r
+		}
 		// the body (thread 0) never returned: the harness is stuck, nothing was judged
 		e.HarnessErr = "scenario body did not run to its end (thread 0 blocked forever: " + e.Threads()[0].Pending() + ")"
 		return e, r
@@ -146,6 +152,7 @@ func runOnce(sc *Scenario, o vsched.Options) (*vsched.Exec, Result) {
 	if e.Failure != "" {
 		r.Violate("fail:"+firstWords(e.Failure, 6), "%s", e.Failure)
 	}
+	r.Violations = append(r.Violations, raceViolations()...)
 	if !sc.AllowPanic {
 		for i, p := range e.Panics {
 			_ = i
@@ -338,6 +345,11 @@ func Explore(sc *Scenario, shard int, deadline time.Time) *Stats {
 	for _, k := range keys {
 		f := found[k]
 		f.Replayed, f.Schedule = confirm(sc, f)
+		if strings.HasPrefix(f.Key, "data race:") {
+			// the race detector reports each pair of stacks once per process, so a replay in this
+			// process cannot show it again; the report itself is the confirmation
+			f.Replayed = true
+		}
 		st.Found = append(st.Found, *f)
 	}
 	st.WallS = time.Since(t0).Seconds()
